@@ -148,3 +148,18 @@ package filesys
 //@   ensures [all other names unchanged] forall q pathname :: q != mkp(newDir, newName) ==> has(fs.dirents, q) == old(has(fs.dirents, q)) && fs.dirents[q] == old(fs.dirents[q])
 //@   ensures [invariant, lock released] rinv(fs) && held_w == old(held_w)
 //@   modifies map(fs.dirents), held_w
+
+//@ func (*MemFs).List
+//@   requires rinv(fs) && unlocked(fs)
+//@   lock &fs.m
+//@   panics_iff [directory must exist] !isdir(fs, dir)
+//@   on_panic [nothing changed, lock released] unchanged()
+//@   ensures [every returned name is a file of the directory] forall j int :: 0 <= j && j < len(result) ==> has(fs.dirents, mkp(dir, result[j]))
+//@   ensures [every file of the directory is returned] forall q pathname :: has(fs.dirents, q) && q.dir == dir ==> exists i int :: result.off <= i && i < result.off + len(result) && elemat(result, i) == q.name
+//@   ensures [file system unchanged, lock released] held_w == old(held_w)
+//@   modifies held_w
+//@   loop 1 invariant [sound] forall j int :: 0 <= j && j < len(names) ==> has(fs.dirents, mkp(dir, names[j]))
+//@   loop 1 invariant [complete so far] forall q pathname :: has(fs.dirents, q) && q.dir == dir && !todo[q] ==> exists i int :: names.off <= i && i < names.off + len(names) && elemat(names, i) == q.name
+//@   loop 1 invariant [names is private storage] names.arr == 0 || fresh(names)
+//@   loop 1 invariant [nothing else touched] modifies_only(held_w)
+//@   loop 1 invariant [lock held] held_w == old(held_w)[&fs.m := true]
